@@ -3,7 +3,10 @@ package main
 // Helpers added in the white-box round on C01 / C02 / C03.
 
 import (
+	"go/token"
 	"go/types"
+	"sort"
+	"strings"
 
 	"golang.org/x/tools/go/ssa"
 )
@@ -173,4 +176,471 @@ func pointsIntoModule(c *ssa.CallCommon) bool {
 		}
 	}
 	return false
+}
+
+// ---- access paths (C03.R) ----
+
+// apRoot/apath: a value is reached from a parameter of some function through a chain of fields (slices, maps, pointers and
+// interfaces are transparent; fields are named "Type.field").
+type apath struct {
+	root  *ssa.Parameter
+	chain string // fields joined by "/"
+}
+
+const apMaxLen = 10
+
+func apJoin(a, b string) string {
+	switch {
+	case a == "":
+		return b
+	case b == "":
+		return a
+	}
+	return a + "/" + b
+}
+
+type apEngine struct {
+	p      *Prog
+	ftype  map[string]types.Type // qualified field name -> declared type
+	retAP  map[*ssa.Function]map[int]map[apath]bool
+	inProg map[*ssa.Function]bool
+}
+
+func (p *Prog) newAPEngine() *apEngine {
+	e := &apEngine{p: p, ftype: map[string]types.Type{}, retAP: map[*ssa.Function]map[int]map[apath]bool{}, inProg: map[*ssa.Function]bool{}}
+	scope := p.Main.Types.Scope()
+	for _, n := range scope.Names() {
+		tn, ok := scope.Lookup(n).(*types.TypeName)
+		if !ok {
+			continue
+		}
+		st, ok := tn.Type().Underlying().(*types.Struct)
+		if !ok {
+			continue
+		}
+		for i := 0; i < st.NumFields(); i++ {
+			q, _ := fieldName(tn.Type(), i)
+			e.ftype[q] = st.Field(i).Type()
+		}
+	}
+	return e
+}
+
+// norm cuts a chain behind its first field of scalar kind (what lies inside a scalar is not a position of its own) and
+// bounds its length.
+func (e *apEngine) norm(chain string) string {
+	if chain == "" {
+		return ""
+	}
+	parts := strings.Split(chain, "/")
+	for i, f := range parts {
+		if t, ok := e.ftype[f]; ok && scalarKinds[typeStr(t)] {
+			parts = parts[:i+1]
+			break
+		}
+	}
+	if len(parts) > apMaxLen {
+		parts = parts[:apMaxLen]
+	}
+	return strings.Join(parts, "/")
+}
+
+// of: the access paths of v, backwards inside its function, through closures to the enclosing function, and through the
+// results of module functions.
+func (e *apEngine) of(v ssa.Value) map[apath]bool {
+	out := map[apath]bool{}
+	e.walk(v, "", out, map[apKey]bool{}, 0)
+	return out
+}
+
+type apKey struct {
+	v ssa.Value
+	s string
+}
+
+func (e *apEngine) walk(v ssa.Value, suffix string, out map[apath]bool, seen map[apKey]bool, depth int) {
+	if v == nil || depth > 60 || strings.Count(suffix, "/") > 2*apMaxLen {
+		return
+	}
+	if seen[apKey{v, suffix}] {
+		return
+	}
+	seen[apKey{v, suffix}] = true
+	switch x := v.(type) {
+	case *ssa.Parameter:
+		out[apath{x, e.norm(suffix)}] = true
+	case *ssa.FreeVar:
+		fn := x.Parent()
+		idx := -1
+		for i, fv := range fn.FreeVars {
+			if fv == x {
+				idx = i
+			}
+		}
+		if par := fn.Parent(); par != nil && idx >= 0 {
+			eachInstr(par, func(_ *ssa.BasicBlock, _ int, in ssa.Instruction) {
+				if mc, ok := in.(*ssa.MakeClosure); ok && mc.Fn == fn && idx < len(mc.Bindings) {
+					e.walk(mc.Bindings[idx], suffix, out, seen, depth+1)
+				}
+			})
+		}
+	case *ssa.Alloc:
+		// the address of a variable: what was stored into it; for an object built in place (&T{f: v}), what was stored into
+		// the field the chain continues with
+		first, rest := suffix, ""
+		if i := strings.Index(suffix, "/"); i >= 0 {
+			first, rest = suffix[:i], suffix[i+1:]
+		}
+		for _, ref := range *x.Referrers() {
+			switch r := ref.(type) {
+			case *ssa.Store:
+				if r.Addr == x {
+					e.walk(r.Val, suffix, out, seen, depth+1)
+				}
+			case *ssa.FieldAddr:
+				if first == "" || fieldAddrName(r) != first {
+					continue
+				}
+				for _, r2 := range *r.Referrers() {
+					if st, ok := r2.(*ssa.Store); ok && st.Addr == r {
+						e.walk(st.Val, rest, out, seen, depth+1)
+					}
+				}
+			}
+		}
+	case *ssa.UnOp:
+		if x.Op != token.MUL {
+			e.walk(x.X, suffix, out, seen, depth+1)
+			return
+		}
+		switch a := x.X.(type) {
+		case *ssa.FieldAddr:
+			e.walk(a.X, apJoin(fieldAddrName(a), suffix), out, seen, depth+1)
+		case *ssa.IndexAddr:
+			e.walk(a.X, suffix, out, seen, depth+1)
+		default:
+			e.walk(x.X, suffix, out, seen, depth+1)
+		}
+	case *ssa.FieldAddr:
+		e.walk(x.X, apJoin(fieldAddrName(x), suffix), out, seen, depth+1)
+	case *ssa.IndexAddr:
+		e.walk(x.X, suffix, out, seen, depth+1)
+	case *ssa.Field:
+		n, _ := fieldName(x.X.Type(), x.Field)
+		e.walk(x.X, apJoin(n, suffix), out, seen, depth+1)
+	case *ssa.Index:
+		e.walk(x.X, suffix, out, seen, depth+1)
+	case *ssa.Lookup:
+		e.walk(x.X, suffix, out, seen, depth+1)
+	case *ssa.Slice:
+		e.walk(x.X, suffix, out, seen, depth+1)
+	case *ssa.Phi:
+		for _, ed := range x.Edges {
+			e.walk(ed, suffix, out, seen, depth+1)
+		}
+	case *ssa.Extract:
+		switch t := x.Tuple.(type) {
+		case *ssa.Next:
+			if r, ok := t.Iter.(*ssa.Range); ok && x.Index == 2 {
+				e.walk(r.X, suffix, out, seen, depth+1)
+			}
+		case *ssa.TypeAssert:
+			if x.Index == 0 {
+				e.walk(t.X, suffix, out, seen, depth+1)
+			}
+		case *ssa.Lookup:
+			if x.Index == 0 {
+				e.walk(t.X, suffix, out, seen, depth+1)
+			}
+		case *ssa.Call:
+			e.walkCall(t, x.Index, suffix, out, seen, depth)
+		}
+	case *ssa.TypeAssert:
+		e.walk(x.X, suffix, out, seen, depth+1)
+	case *ssa.MakeInterface:
+		e.walk(x.X, suffix, out, seen, depth+1)
+	case *ssa.ChangeInterface:
+		e.walk(x.X, suffix, out, seen, depth+1)
+	case *ssa.ChangeType:
+		e.walk(x.X, suffix, out, seen, depth+1)
+	case *ssa.Convert:
+		e.walk(x.X, suffix, out, seen, depth+1)
+	case *ssa.BinOp:
+		if x.Op == token.ADD {
+			e.walk(x.X, suffix, out, seen, depth+1)
+			e.walk(x.Y, suffix, out, seen, depth+1)
+		}
+	case *ssa.Call:
+		e.walkCall(x, 0, suffix, out, seen, depth)
+	}
+}
+
+// walkCall: result #idx of a call. A module function contributes what its returns are made of, relative to its parameters;
+// a function outside the module (strings.TrimSpace, ...) is taken to derive its result from its arguments.
+func (e *apEngine) walkCall(call *ssa.Call, idx int, suffix string, out map[apath]bool, seen map[apKey]bool, depth int) {
+	if b, ok := call.Call.Value.(*ssa.Builtin); ok {
+		if b.Name() == "append" {
+			for _, a := range call.Call.Args {
+				e.walk(a, suffix, out, seen, depth+1)
+			}
+		}
+		return
+	}
+	args := func(j int) ssa.Value {
+		cc := &call.Call
+		if cc.IsInvoke() {
+			if j == 0 {
+				return cc.Value
+			}
+			j--
+		}
+		if j < len(cc.Args) {
+			return cc.Args[j]
+		}
+		return nil
+	}
+	gs := e.p.calleesOf(call)
+	for _, g := range gs {
+		if g.Blocks == nil || !inModule(g) {
+			continue
+		}
+		for ap := range e.results(g)[idx] {
+			j := -1
+			for i, prm := range g.Params {
+				if prm == ap.root {
+					j = i
+				}
+			}
+			if j < 0 {
+				// rooted in a parameter of an enclosing function: already absolute
+				out[apath{ap.root, e.norm(apJoin(ap.chain, suffix))}] = true
+				continue
+			}
+			if a := args(j); a != nil {
+				e.walk(a, apJoin(ap.chain, suffix), out, seen, depth+1)
+			}
+		}
+	}
+	ext := len(gs) == 0
+	for _, g := range gs {
+		if g.Blocks == nil || !inModule(g) {
+			ext = true
+		}
+	}
+	if ext {
+		if call.Call.IsInvoke() {
+			e.walk(call.Call.Value, suffix, out, seen, depth+1)
+		}
+		for _, a := range call.Call.Args {
+			e.walk(a, suffix, out, seen, depth+1)
+		}
+	}
+}
+
+// results: per result index, the access paths (relative to g's own parameters) of what g returns.
+func (e *apEngine) results(g *ssa.Function) map[int]map[apath]bool {
+	if r, ok := e.retAP[g]; ok {
+		return r
+	}
+	if e.inProg[g] {
+		return nil
+	}
+	e.inProg[g] = true
+	res := map[int]map[apath]bool{}
+	for _, b := range g.Blocks {
+		ret, ok := b.Instrs[len(b.Instrs)-1].(*ssa.Return)
+		if !ok {
+			continue
+		}
+		for i, r := range ret.Results {
+			if res[i] == nil {
+				res[i] = map[apath]bool{}
+			}
+			for ap := range e.of(r) {
+				res[i][ap] = true
+			}
+		}
+	}
+	delete(e.inProg, g)
+	e.retAP[g] = res
+	return res
+}
+
+// handedToScanner: for every function of the module, the (parameter, chain) pairs it hands - itself or through callees - to
+// the source parameter of NewExprLexer.
+func (e *apEngine) handedToScanner() map[*ssa.Function]map[apath]bool {
+	p := e.p
+	found := map[*ssa.Function]map[apath]bool{}
+	lexer := p.Func("NewExprLexer")
+	if lexer == nil || len(lexer.Params) == 0 {
+		return found
+	}
+	add := func(ap apath) bool {
+		fn := ap.root.Parent()
+		if found[fn] == nil {
+			found[fn] = map[apath]bool{}
+		}
+		if found[fn][ap] {
+			return false
+		}
+		found[fn][ap] = true
+		return true
+	}
+	add(apath{lexer.Params[0], ""})
+	own := p.Own()
+	// the call sites of module functions with their arguments
+	type site struct {
+		g   *ssa.Function
+		j   int
+		arg ssa.Value
+	}
+	var sites []site
+	for _, fn := range own.funcs {
+		eachInstr(fn, func(_ *ssa.BasicBlock, _ int, in ssa.Instruction) {
+			call, ok := in.(ssa.CallInstruction)
+			if !ok {
+				return
+			}
+			cc := call.Common()
+			if _, isB := cc.Value.(*ssa.Builtin); isB {
+				return
+			}
+			for _, g := range p.calleesOf(call) {
+				if g.Blocks == nil || !inModule(g) {
+					continue
+				}
+				for j := range g.Params {
+					var arg ssa.Value
+					k := j
+					if cc.IsInvoke() {
+						if k == 0 {
+							arg = cc.Value
+						}
+						k--
+					}
+					if arg == nil && k >= 0 && k < len(cc.Args) {
+						arg = cc.Args[k]
+					}
+					if arg == nil {
+						continue
+					}
+					switch t := arg.Type().Underlying().(type) {
+					case *types.Basic:
+						if t.Info()&types.IsString == 0 {
+							continue
+						}
+					case *types.Signature:
+						continue
+					}
+					sites = append(sites, site{g, j, arg})
+				}
+			}
+		})
+	}
+	type doneKey struct {
+		i     int
+		chain string
+	}
+	done := map[doneKey]bool{}
+	for changed := true; changed; {
+		changed = false
+		for i, s := range sites {
+			for h := range found[s.g] {
+				if h.root != s.g.Params[s.j] || done[doneKey{i, h.chain}] {
+					continue
+				}
+				done[doneKey{i, h.chain}] = true
+				res := map[apath]bool{}
+				e.walk(s.arg, h.chain, res, map[apKey]bool{}, 0)
+				for a := range res {
+					if add(a) {
+						changed = true
+					}
+				}
+			}
+		}
+	}
+	return found
+}
+
+// requiredScalarPaths: every chain of fields from the node type to a field of scalar kind. Job and Step are visited on their
+// own by the visitor and end a chain; a type already on the chain is not entered again.
+func (e *apEngine) requiredScalarPaths(root *types.Named, stopAt map[string]bool) []string {
+	p := e.p
+	var out []string
+	scope := p.Main.Types.Scope()
+	implementers := func(it *types.Interface) []*types.Named {
+		var res []*types.Named
+		for _, n := range scope.Names() {
+			tn, ok := scope.Lookup(n).(*types.TypeName)
+			if !ok {
+				continue
+			}
+			nt, ok := tn.Type().(*types.Named)
+			if !ok {
+				continue
+			}
+			if _, isStruct := nt.Underlying().(*types.Struct); !isStruct {
+				continue
+			}
+			if types.Implements(types.NewPointer(nt), it) || types.Implements(nt, it) {
+				res = append(res, nt)
+			}
+		}
+		return res
+	}
+	onPath := map[*types.Named]bool{}
+	var visit func(n *types.Named, chain string)
+	var visitType func(t types.Type, chain string)
+	visitType = func(t types.Type, chain string) {
+		switch u := t.(type) {
+		case *types.Pointer:
+			visitType(u.Elem(), chain)
+		case *types.Slice:
+			visitType(u.Elem(), chain)
+		case *types.Map:
+			visitType(u.Elem(), chain)
+		case *types.Named:
+			if u.Obj().Pkg() != p.Main.Types {
+				return
+			}
+			if it, ok := u.Underlying().(*types.Interface); ok {
+				if it.NumMethods() == 0 {
+					return
+				}
+				for _, impl := range implementers(it) {
+					visit(impl, chain)
+				}
+				return
+			}
+			visit(u, chain)
+		}
+	}
+	visit = func(n *types.Named, chain string) {
+		if onPath[n] || (chain != "" && stopAt[n.Obj().Name()]) {
+			return
+		}
+		st, ok := n.Underlying().(*types.Struct)
+		if !ok {
+			return
+		}
+		switch n.Obj().Name() {
+		case "String", "Bool", "Int", "Float", "Pos":
+			return
+		}
+		onPath[n] = true
+		defer delete(onPath, n)
+		for i := 0; i < st.NumFields(); i++ {
+			q, _ := fieldName(n, i)
+			f := st.Field(i)
+			if scalarKinds[typeStr(f.Type())] {
+				out = append(out, apJoin(chain, q))
+				continue
+			}
+			visitType(f.Type(), apJoin(chain, q))
+		}
+	}
+	visit(root, "")
+	sort.Strings(out)
+	return out
 }
